@@ -112,6 +112,20 @@ let rec parse_doc t : doc =
   else if String.length x >= 2 && x.[0] = 'T' && x.[1] = ':' then DText (str_of_hex (after_colon x))
   else failwith ("doc token " ^ x)
 
+let no_attrs = { a_disabled = false; a_comment = false; a_multiline = false; a_flavor = false }
+
+let rec parse_tree t : tree =
+  let x = next t in
+  if x = "(" then begin
+    let k = kind_of_N (n_of_int (int_of_string (next t))) in
+    let cs = ref [] in
+    while peek t <> ")" do cs := parse_tree t :: !cs done;
+    expect t ")";
+    Inner (k, List.rev !cs, no_attrs)
+  end else
+    let k = kind_of_N (n_of_int (int_of_string (before_colon x))) in
+    Leaf (k, str_of_hex (after_colon x), no_attrs)
+
 let rec dump_doc b (d : doc) =
   match d with
   | DNil -> Buffer.add_string b "N"
@@ -144,6 +158,15 @@ let () =
       each_line (fun line ->
           let r = strip (str_of_hex (String.trim line)) in
           hex_of_str r ^ (if hygiene_b r then " 1" else " 0"))
+  | "attrs" ->
+      each_line (fun line ->
+          let t = annotate (parse_tree (toks_of line)) in
+          let b = Buffer.create 256 in
+          List.iter (fun a ->
+              let v = (if a.a_disabled then 1 else 0) lor (if a.a_comment then 2 else 0)
+                      lor (if a.a_multiline then 4 else 0) lor (if a.a_flavor then 8 else 0) in
+              Buffer.add_string b (Printf.sprintf "%x" v)) (flags t);
+          Buffer.contents b)
   | "render" ->
       (* W DOC -> HEX | fuel *)
       each_line (fun line ->
